@@ -433,7 +433,7 @@ def consolidates (snaps : List (Snap D)) : Bool :=
 /-- does the verification let the reap proceed? (a plan to resume is executed without it) -/
 def reapGate (s : FS D) (verifiedOK inputsOK : Bool) : Except String Unit :=
   match s.plan with
-  | some _ => .ok ()
+  | some _ => .ok ()   -- (the resume path has its own check, `verifyPlanInputs`: see `dbUntouched` below)
   | none =>
     if !verifiedOK then .error "verify-crc"
     else
@@ -452,6 +452,32 @@ def reapCrashChecked (A : DbAlg D) (s : FS D) (newName : Nat) (verify verifiedOK
   match reapGate s verifiedOK inputsOK with
   | .error _ => s
   | .ok () => reapCrash A s newName verify c
+
+/-! ### the resume path's verification -/
+
+/-- Store.verifyPlanInputs (the check before an interrupted REAP_PLAN is resumed, `fix:` 34030d3),
+the condition under which it CRC-checks the database file of a checkpoint operation, as in the
+source: `untouched := len(op.WALs) > 0 && !FileExists(op.DB+"-wal")`, set to false by any source
+WAL that no longer exists. -/
+def dbUntouched (s : FS D) (n : Nat) (W : List (Nat × Nat)) : Bool :=
+  !W.isEmpty && W.all (walExists s) &&
+  (match s.dir n with
+   | some d => d.dbWal.isNone
+   | none => true)
+
+/-- the condition of the seeded variant: some source WAL is still pending and no WAL sits next to
+the database -/
+def dbUntouchedWrong (s : FS D) (n : Nat) (W : List (Nat × Nat)) : Bool :=
+  W.any (walExists s) &&
+  (match s.dir n with
+   | some d => d.dbWal.isNone
+   | none => true)
+
+/-- the database-file check passes: not made, or the sidecar matches the file (files that are
+missing are skipped, as in the source) -/
+def DbCheckPasses (cond : FS D → Nat → List (Nat × Nat) → Bool) (s : FS D) (n : Nat) (W : List (Nat × Nat)) : Prop :=
+  cond s n W = true → ∀ d, s.dir n = some d → ∀ x y, d.db = some x → d.crc = some y → x = y
+
 
 inductive RecCut where
   | atStart
